@@ -690,12 +690,19 @@ def _make_response(lines, run) -> Tuple[interface.Response, List[str]]:
 
 def _sexpr_data(line: str) -> Iterator[Tuple[str, Any]]:
     while line:
+        if not line.startswith('('):
+            # e.g., the beginning of a line cut short by a dying ACE
+            logger.error('Could not read output from ACE: %s', line)
+            break
         try:
             expr = util.SExpr.parse(line)
         except IndexError:
             expr = util.SExprResult(
                 (':error', 'incomplete output from ACE'),
                 '')
+        except ValueError:
+            logger.error('Could not read output from ACE: %s', line)
+            break
         if len(expr.data) != 2:
             logger.error('Could not read output from ACE: %s', line)
             break
